@@ -271,3 +271,88 @@ def add_src_c20b(ck, funcs: list[str], quick: int = 150, thorough: int = 1500):
     import core
     ls = lines_c20b(ck.rng, funcs, thorough if ck.tier == "thorough" else quick)
     ck.src_lines += list(zip(ls, core.impl_many(ls)))
+
+
+def check_prims() -> int:
+    """`python harness/srctie_c20b.py --prims`: the facts about CPython that the primitives of lean/HtmlVerif/Py/PrimC20b.lean
+    state and that the `srcc20b` lines cannot reach (the lines cover the rest on every run), checked against the running
+    interpreter"""
+    import copy
+    from htmltools._jsx import JSXTag, JSXTagAttrDict, jsx
+    import htmltools
+    bad = []
+
+    def raises(exc, f):
+        try:
+            f()
+        except exc:
+            return True
+        except Exception:  # noqa: BLE001
+            return False
+        return False
+
+    # pyDictUpdateKwC20b: `**x` of a non-mapping is a TypeError; the items of a dict are set in order, not through __setitem__
+    for x in (None, 5, [1], "ab", (1,)):
+        if not raises(TypeError, lambda: dict.update({}, **x)):
+            bad.append(("update(**x)", x))
+    d = JSXTagAttrDict()
+    dict.update(d, **{"a_b": 1, "c": 2})
+    if list(d.items()) != [("a_b", 1), ("c", 2)]:
+        bad.append(("dict.update bypasses __setitem__", dict(d)))
+    # pyCopyC20b / pyCopyObjC20b: copy.copy of a dict subclass re-inserts through __setitem__; the identity without `_`
+    d = JSXTagAttrDict()
+    dict.update(d, {"on_click": 1, "x-y": 2})
+    if dict(copy.copy(d)) != {"on-click": 1, "x-y": 2} or dict(copy.copy({"on_click": 1})) != {"on_click": 1}:
+        bad.append(("copy.copy(JSXTagAttrDict)", dict(copy.copy(d))))
+    t = htmltools.Tag("div")
+    dict.update(t.attrs, {"data_x": "1", "k": "v"})
+    if dict(copy.copy(t).attrs) != {"data-x": "1", "k": "v"}:
+        bad.append(("copy.copy(Tag).attrs", dict(copy.copy(t).attrs)))
+    # pyNewLikeC20b / pyDictAttrUpdateC20b
+    j = JSXTag("Foo", "a", x=1)
+    c = j.__class__.__new__(j.__class__)
+    if type(c) is not JSXTag or vars(c) != {}:
+        bad.append(("__new__", vars(c)))
+    c.__dict__.update(j.__dict__)
+    if list(vars(c)) != ["name", "attrs", "children"]:
+        bad.append(("__dict__.update", list(vars(c))))
+    # pyUpperC20b on non-str receivers
+    for x in (None, 5, []):
+        if not raises(AttributeError, lambda: x.upper()):
+            bad.append(("upper", x))
+    if type(htmltools.HTML("a").upper()) is not htmltools.HTML:
+        bad.append(("HTML.upper", None))
+    # pyStrAddC20b: TypeError for a non-str right operand (raised, not NotImplemented) and for a non-str receiver
+    if type(str.__add__(jsx("a"), jsx("b"))) is not str:
+        bad.append(("str.__add__", None))
+    for a, b in (("a", 5), ("a", None), ("a", []), ("a", htmltools.HTML("b")), (5, "a"), (jsx("a"), htmltools.HTML("b"))):
+        if not raises(TypeError, lambda: str.__add__(a, b)):
+            bad.append(("str.__add__", (a, b)))
+    # pyJsxNewC20b / mkHTMLC20b
+    if type(str.__new__(jsx, "a")) is not jsx or type(htmltools.HTML(jsx("a")).data) is not str:
+        bad.append(("str.__new__(jsx) / HTML(jsx).data", None))
+    # pySetFuncNameC20b
+
+    def f():
+        pass
+    for x in (None, 5, htmltools.HTML("a")):
+        if not raises(TypeError, lambda: setattr(f, "__name__", x)):
+            bad.append(("__name__ =", x))
+    f.__name__ = jsx("g")
+    # pySameKeysC20b: adding a key while iterating a dict raises RuntimeError at the next step only
+    d = JSXTagAttrDict()
+    dict.update(d, {"a_b": 1, "c": 2})
+    if not raises(RuntimeError, lambda: [d.__setitem__(k, v) for k, v in d.items()]):
+        bad.append(("dict changed size during iteration", None))
+    d = JSXTagAttrDict()
+    dict.update(d, {"c": 2, "a_b": 1})
+    if not raises(RuntimeError, lambda: [d.__setitem__(k, v) for k, v in d.items()]):      # also when it is the last item
+        bad.append(("dict changed size during iteration (last item)", None))
+    print(f"prims: {len(bad)} mismatches", bad[:5])
+    return 1 if bad else 0
+
+
+if __name__ == "__main__":
+    import sys
+    sys.path.insert(0, __import__("os").path.dirname(__import__("os").path.abspath(__file__)))
+    sys.exit(check_prims() if "--prims" in sys.argv else 0)
